@@ -24,6 +24,15 @@ func init() {
 			"correctness of net.IPNet.Contains and ipaddr cursors, ipfamily.ForService.",
 		Run: runC02,
 		Mutants: []Mutant{
+			{Name: "unlabelled-service-never-compatible", File: "internal/allocator/allocator.go",
+				Old: "\tif p.ServiceAllocations != nil && len(p.ServiceAllocations.ServiceSelectors) > 0 {\n\t\tsvcLabels := labels.Set(svc.Labels)\n",
+				New: "\tif p.ServiceAllocations != nil && len(p.ServiceAllocations.ServiceSelectors) > 0 {\n\t\tif len(svc.Labels) == 0 {\n\t\t\treturn false\n\t\t}\n\t\tsvcLabels := labels.Set(svc.Labels)\n", Expect: "return-false:justified"},
+			{Name: "pinned-enumeration-stops-at-unusable-pool", File: "internal/allocator/allocator.go",
+				Old: "\t\t\tif !nsPool.AutoAssign || !a.isPoolCompatibleWithService(nsPool, svc) {\n\t\t\t\tcontinue\n",
+				New: "\t\t\tif !nsPool.AutoAssign || !a.isPoolCompatibleWithService(nsPool, svc) {\n\t\t\t\tbreak\n", Expect: "every-pinned-pool-examined"},
+			{Name: "overlap-test-skipped-for-other-notation", File: "internal/config/config.go",
+				Old: "\t\t\tfor _, m := range allCIDRs {\n",
+				New: "\t\t\tfor _, m := range allCIDRs {\n\t\t\t\tif len(m.IP) != len(cidr.IP) {\n\t\t\t\t\tcontinue\n\t\t\t\t}\n", Expect: "VALIDATED-ACCUMULATOR"},
 			{Name: "pool-annotation-only-when-absent", File: "controller/service.go",
 				Old: "\tsvc.Annotations[AnnotationIPAllocateFromPool] = pool\n\n\treturn nil",
 				New: "\tif _, ok := svc.Annotations[AnnotationIPAllocateFromPool]; !ok {\n\t\tsvc.Annotations[AnnotationIPAllocateFromPool] = pool\n\t}\n\n\treturn nil", Expect: "annotation-refreshed"},
@@ -95,6 +104,9 @@ func runC02(p *chk.Prog, r *chk.Report) {
 	c02FirstPoolWins(p, r)
 	cidrContainmentRule(p, r)
 	familyOfRule(p, r)
+	// the pools are pairwise disjoint: every network is compared with every network accepted before it, of whatever
+	// notation (VALIDATED-ACCUMULATOR, shared with C08) - an address owned by two pools is judged against an arbitrary one
+	c08Accumulator(p, r)
 }
 
 // c02FirstPoolWins: the pools are tried in priority order; a partial candidate (an allocation that serves only one
@@ -277,7 +289,37 @@ func c02Pinned(p *chk.Prog, r *chk.Report) {
 		x.Check("pinned:append("+src+"):AutoAssign", a.Pos(), g.Dominated(a, g.GPat(true, "P.AutoAssign", chk.H("P", same))), "", "a pool with auto-assignment disabled can be pinned")
 		x.Check("pinned:append("+src+"):compatible", a.Pos(), g.Dominated(a, g.GPat(true, "RECV.isPoolCompatibleWithService(P, S)", chk.H("P", same), chk.H("S", isParam(f, "svc")))), "", "a pool whose selectors do not admit the service can be pinned")
 	}
-	x.Check("pinned:two-sources", f.Pos(), len(apps) == 2, "", "expected the namespace-pinned and selector-pinned sources")
+	// both sources are consulted: the pools pinned to the Service's namespace and the pools with service selectors - by
+	// one loop each, or by one loop over the two lists joined
+	haveNS, haveSel := false, false
+	for _, a := range apps {
+		rs, isRs := f.LoopOf(a.Node).(*ast.RangeStmt)
+		if !isRs {
+			continue
+		}
+		srcs := []ast.Expr{throughLocals(g, rs.X)}
+		if c, isCall := ast.Unparen(srcs[0]).(*ast.CallExpr); isCall {
+			if fo, isF := f.Callee(c).(*types.Func); isF && fo.FullName() == "slices.Concat" {
+				srcs = c.Args
+			}
+		}
+		for _, e := range srcs {
+			e = throughLocals(g, e)
+			if f.MatchWith("RECV.pools.ByNamespace[S.Namespace]", e, chk.H("S", isParam(f, "svc"))) != nil {
+				haveNS = true
+			}
+			if f.MatchNew("RECV.pools.ByServiceSelector", e) != nil {
+				haveSel = true
+			}
+		}
+	}
+	x.Check("pinned:two-sources", f.Pos(), haveNS && haveSel && len(apps) >= 1 && len(apps) <= 2, "", "expected the namespace-pinned and selector-pinned sources")
+	// every pinned pool is looked at: a pool this Service cannot use is passed over, it does not end the enumeration
+	for _, a := range apps {
+		if rs, isRs := f.LoopOf(a.Node).(*ast.RangeStmt); isRs {
+			x.Check("pinned:every-pinned-pool-examined@"+f.Src(rs.X), rs.Pos(), !loopLeavesEarly(f, g, rs), "", "the enumeration of the pinned pools can stop before the last one (break / return in the loop): pools that sort after an unusable one are never offered, and they are not fallback pools either")
+		}
+	}
 	if list != nil {
 		w := (&chk.Walk{G: g, Stop: f.ContainsPat("sortPools(L)", chk.H("L", f.IsObj(list))),
 			Hit: func(n ast.Node) bool { _, ok := n.(*ast.ReturnStmt); return ok },
@@ -322,6 +364,31 @@ func c02PoolCompat(p *chk.Prog, r *chk.Report) {
 		x.Check("compat:return-true("+tag+"):selectors", rt.Pos(), matches || g.Dominated(rt, noSel), "", "a pool with service selectors can be reported compatible without a matching selector")
 	}
 	x.Check("compat:has-true", f.Pos(), n >= 2, "", "expected the selector-match and the default `return true`")
+	// and it says no only for one of the two reasons: the namespace refusal, or selectors none of which matched (after the
+	// loop over all of them) - a Service that a selector matches (an empty label set matches labels.Everything() and every
+	// negative selector) must not be turned away by anything else
+	nsRefused := g.GPat(true, "P.ServiceAllocations != nil && P.ServiceAllocations.Namespaces.Len() > 0 && !P.ServiceAllocations.Namespaces.Has(S.Namespace)", chk.H("P", pool), chk.H("S", svc))
+	for _, rt := range returnsOf(g) {
+		res := retResults(rt)
+		if len(res) != 1 || !f.IsConstBool(res[0], false) {
+			continue
+		}
+		okF := g.Dominated(rt, nsRefused)
+		if !okF {
+			for _, rs := range f.RangeLoops(func(e ast.Expr) bool {
+				return f.MatchWith("P.ServiceAllocations.ServiceSelectors", throughLocals(g, e), chk.H("P", pool)) != nil || f.MatchWith("SA.ServiceSelectors", e) != nil
+			}) {
+				if g.AfterLoop(rt, rs) && !loopHasBreak(g, rs) {
+					okF = true
+				}
+				// the conjunctive spelling is judged by the true-returns above
+				if chk.InBody(rs, rt.Node) {
+					okF = true
+				}
+			}
+		}
+		x.Check("compat:return-false:justified", rt.Pos(), okF, "", "the pool is reported incompatible for a reason other than its namespaces or its selectors (after all of them failed to match): a Service that may use the pool is refused its recorded address, cleared and moved")
+	}
 }
 
 func c02SortPools(p *chk.Prog, r *chk.Report) {
